@@ -878,7 +878,7 @@ impl Check for C09 {
     }
     fn total_runs(&self, tier: Tier) -> u64 {
         match tier {
-            Tier::Quick => 20_000,
+            Tier::Quick => 30_000,
             Tier::Thorough => 1_000_000,
         }
     }
